@@ -777,6 +777,27 @@ Definition c02_swept (t : trans) : bool :=
     denoms) roles) (ids_upto (st_aseq (t_post t) + 2)).
 Definition c02_all (t : trans) : bool := c02_ok t && c02_swept t.
 
+(* C05, "the maximum bid amount the allow-list granted": after an accepted allow-list operation the stored maximum
+   of every account it names is the one granted last (a later entry for the same account overrides an earlier one) *)
+Definition granted (l : list (N * addr_str * option Z)) (u : N) : option Z :=
+  fold_left (fun acc e => match e with
+                          | (_, AGood _ v, Some m) => if N.eqb v u then Some m else acc
+                          | _ => acc end) l None.
+Definition stored_max (s : state) (id u : N) : option Z := option_map al_max (find_allowed s id u).
+Definition optZ_eqb (x y : option Z) : bool :=
+  match x, y with Some a, Some b => a =? b | None, None => true | _, _ => false end.
+Definition c05_grants (t : trans) : bool :=
+  match t_op t, t_class t with
+  | OApiAdd id l, KOk =>
+      forallb (fun e => match e with
+                        | (_, AGood _ u, _) => optZ_eqb (stored_max (t_post t) id u) (granted l u)
+                        | _ => true end) l
+  | OApiUpdate id u max, KOk => optZ_eqb (stored_max (t_post t) id u) max
+  | OTx (MAddAllowed id _ (AGood _ u) max), KOk => optZ_eqb (stored_max (t_post t) id u) max
+  | _, _ => true
+  end.
+Definition c05_all (t : trans) : bool := c05_ok t && c05_grants t.
+
 (* C08, state level: an auction is in the vesting status only while its last instalment is unreleased
    ("finishes when its last vesting instalment is released") *)
 Definition pending_ok (s : state) : bool :=
@@ -787,7 +808,7 @@ Definition c08_all (t : trans) : bool := c08_ok t && pending_ok (t_post t).
 
 (* ---------------------------------------------------------------- all of them *)
 Definition all_checks : list (N * (trans -> bool)) :=
-  [(1%N, c01_ok); (2%N, c02_all); (3%N, c03_ok); (4%N, c04_ok); (5%N, c05_ok); (6%N, c06_ok); (7%N, c07_ok);
+  [(1%N, c01_ok); (2%N, c02_all); (3%N, c03_ok); (4%N, c04_ok); (5%N, c05_all); (6%N, c06_ok); (7%N, c07_ok);
    (8%N, c08_all); (9%N, c09_ok); (10%N, c10_ok); (11%N, c11_ok); (12%N, c12_ok); (13%N, c13_ok);
    (15%N, c15_ok); (16%N, c16_ok); (17%N, c17_ok); (18%N, c18_ok); (19%N, c19_ok)].
 Definition failing (t : trans) : list N :=
